@@ -530,7 +530,7 @@ func TestC20(t *testing.T) {
 				Rule: "the triples {W1,W2,R}, {W1,W2,V}, {W1,R,V}, {W2,R,V}: all schedules with at most 3 preemptions; same oracles"},
 				c20Body(t, c20Triples(false)[:4], false, 3))
 		}
-		rule := "threads = concurrent clients of one real store: W1 node-point writer (write, read-own-write, write), W2 edge-point writer, R reader (monotonic reads), V admin.storeVerify, X and Y clients whose requests must be refused (X: new edge without node type, self edge, cycle through the root, root tombstone; Y: NaN values) next to W1, W2 / R and next to each other (each must get its own error text), Z1 / Z2 a write that changes the instance root next to readers of the root (with W1)%s; all triples; scheduling points = every message delivery, every SQL operation and every Mutex.Lock / RWMutex.Lock (and contended or recursive RLock) in store/sqlite.go, and every reply leaving the store; all schedules with at most %d preemptions; oracles: every request answered (no deadlock), acknowledged writes visible, reads never go back, final content = newest acknowledged writes, hashes consistent, storeMaint has nothing to repair"
+		rule := "threads = concurrent clients of one real store: W1 node-point writer (write, read-own-write, write), W2 edge-point writer, R reader (monotonic reads), V admin.storeVerify, X and Y clients whose requests must be refused (X: new edge without node type, self edge, cycle through the root, root tombstone; Y: NaN values) next to W1, W2 / R and next to each other (each must get its own error text), Z1 / Z2 a write that changes the instance root next to readers of the root (with W1, and with V)%s; all triples; scheduling points = every message delivery, every SQL operation and every Mutex.Lock / RWMutex.Lock (and contended or recursive RLock) in store/sqlite.go, and every reply leaving the store; all schedules with at most %d preemptions; oracles: every request answered (no deadlock), acknowledged writes visible, reads never go back, final content = newest acknowledged writes, hashes consistent, storeMaint has nothing to repair"
 		extra := ", M admin.storeMaint (with V and a writer / reader, and with both writers)"
 		if thorough() {
 			extra = ", M admin.storeMaint, more triples with M and X, and W1 W2 R V together"
@@ -814,7 +814,7 @@ func c20Triples(thorough bool) [][]int {
 		}
 		return [][]int{t, t, t, t}
 	}
-	ts := [][]int{{0, 1, 2}, {0, 1, 3}, {0, 2, 3}, {1, 2, 3}, {0, 3, 4}, {2, 3, 4}, {0, 1, 5}, {0, 2, 5}, {0, 5, 6}, {0, 1, 4}, {0, 7, 8}}
+	ts := [][]int{{0, 1, 2}, {0, 1, 3}, {0, 2, 3}, {1, 2, 3}, {0, 3, 4}, {2, 3, 4}, {0, 1, 5}, {0, 2, 5}, {0, 5, 6}, {0, 1, 4}, {0, 7, 8}, {3, 7, 8}}
 	if thorough {
 		ts = append(ts, []int{0, 2, 4}, []int{1, 3, 4}, []int{1, 2, 5}, []int{0, 1, 2, 3})
 	}
